@@ -296,8 +296,9 @@
                                     (wfSlice (iavl_Node_key x)) (wfSlice (iavl_Node_value x)) (wfSlice (iavl_Node_leftNodeKey x)) (wfSlice (iavl_Node_rightNodeKey x)) (wfSlice (iavl_Node_hash x))
                                     (<= 0 (iavl_Node_nodeKey x)) (< (iavl_Node_nodeKey x) na)))
                             :pattern ((select (RegN_iavl_Node h) r))))
-       (forall ((r Int)) (! (=> (>= r na) (not (select inp r))) :pattern ((select inp r))))))
+       true))
   :pattern ((ptrinv h inp na)))))
+;@onalloc github.com/cosmos/iavl.Node ghostclear inptr
 ;@stateinv ptrinv N ghost:inptr na
 ; storeFactN: what a single store into node x means for the frame predicates
 ; (all other objects are untouched by a store).
